@@ -584,6 +584,11 @@ type JCAdmCase struct {
 	Cfg      AdmCfg               `json:"cfg"`
 	DropSeed int                  `json:"dropSeed"`
 	Edit     string               `json:"edit"` // none|expr|tz|disable|constraints|dropSchedule|addSchedule|template|lastUpdatedOnly
+	// SubmitLU: what the update submits as schedule.lastUpdated, independently of
+	// the edit: "" = the stored value, absent, past, future (the stored value may
+	// itself be unset/past/future, so stored and submitted can lie on different
+	// sides of "now").
+	SubmitLU string `json:"submitLU,omitempty"`
 }
 
 func TestC16_jobconfig(t *testing.T) {
@@ -593,7 +598,8 @@ func TestC16_jobconfig(t *testing.T) {
 		func(t *rapid.T) JCAdmCase {
 			return JCAdmCase{JC: genJobConfig(t, jcGenOpts{ValidOpts: rapid.IntRange(0, 5).Draw(t, "validopts") != 0, WithCron: 1}), Cfg: genAdmCfg(t),
 				DropSeed: rapid.IntRange(0, 1000).Draw(t, "dropSeed"),
-				Edit:     rapid.SampledFrom([]string{"none", "expr", "tz", "disable", "constraints", "dropSchedule", "addSchedule", "template", "lastUpdatedOnly"}).Draw(t, "edit")}
+				Edit:     rapid.SampledFrom([]string{"none", "expr", "tz", "disable", "constraints", "dropSchedule", "addSchedule", "template", "lastUpdatedOnly"}).Draw(t, "edit"),
+				SubmitLU: rapid.SampledFrom([]string{"", "", "absent", "past", "future"}).Draw(t, "submitLU")}
 		}, runJCAdmCase)
 }
 
@@ -714,6 +720,21 @@ func runJCAdmCase(c JCAdmCase) pbt.Result {
 		if upd.Spec.Schedule != nil {
 			lu := metav1.NewTime(baseTime.Add(-3600 * 1e9))
 			upd.Spec.Schedule.LastUpdated = &lu
+		}
+	}
+	if upd.Spec.Schedule != nil && c.Edit != "lastUpdatedOnly" {
+		switch c.SubmitLU {
+		case "absent":
+			upd.Spec.Schedule.LastUpdated = nil
+		case "past":
+			lu := metav1.NewTime(baseTime.Add(-7200 * 1e9))
+			upd.Spec.Schedule.LastUpdated = &lu
+		case "future":
+			lu := metav1.NewTime(baseTime.Add(86400 * 1e9))
+			upd.Spec.Schedule.LastUpdated = &lu
+		}
+		if c.SubmitLU != "" {
+			res.Labels = append(res.Labels, "submitted-lastUpdated:"+c.SubmitLU)
 		}
 	}
 	updRaw, _ := rawOf(upd, c.DropSeed+1)
